@@ -291,7 +291,7 @@ var axGroups = []axGroup{
 `},
 	{[]string{"(mapcard "}, "(declare-fun mapcard ((Array Int Bool)) Int)\n"},
 	{[]string{"(shl ", "(shr "}, "(declare-fun shl (Int Int) Int)\n(declare-fun shr (Int Int) Int)\n"},
-	{[]string{"(band64 ", "(bor64 ", "(bxor64 ", "(bandnot64 "}, "(declare-fun band64 (Int Int) Int)\n(declare-fun bor64 (Int Int) Int)\n(declare-fun bxor64 (Int Int) Int)\n(declare-fun bandnot64 (Int Int) Int)\n"},
+	{[]string{"(band64 ", "(bor64 ", "(bxor64 ", "(bandnot64 ", "(pow2 "}, "(declare-fun band64 (Int Int) Int)\n(declare-fun bor64 (Int Int) Int)\n(declare-fun bxor64 (Int Int) Int)\n(declare-fun bandnot64 (Int Int) Int)\n"},
 	{[]string{"(band32 ", "(bor32 ", "(bxor32 ", "(bandnot32 "}, "(declare-fun band32 (Int Int) Int)\n(declare-fun bor32 (Int Int) Int)\n(declare-fun bxor32 (Int Int) Int)\n(declare-fun bandnot32 (Int Int) Int)\n"},
 	// ssum(a, s, e, c) = sum over k in [s, e) of (c + max(a[k], 0)); recursive on the start index.
 	// The third axiom (non-negativity) is a lemma by induction on e-s, assumed here (listed in trusted_base).
@@ -300,7 +300,16 @@ var axGroups = []axGroup{
 (assert (forall ((a (Array Int Int)) (s Int) (e Int) (c Int)) (! (=> (< s e) (= (ssum a s e c) (+ c (ite (>= (select a s) 0) (select a s) 0) (ssum a (+ s 1) e c)))) :pattern ((ssum a s e c) (select a s)))))
 (assert (forall ((a (Array Int Int)) (s Int) (e Int) (c Int)) (! (=> (>= c 0) (>= (ssum a s e c) 0)) :pattern ((ssum a s e c)))))
 `},
-	{[]string{"(pow2 "}, "(declare-fun pow2 (Int) Bool)\n"},
+	// pow2 and the 64-bit AND: lemmas proved in QF_BV (see /verif/lemmas), used as axioms over Int.
+	{[]string{"(pow2 ", "(band64 "}, `(declare-fun pow2 (Int) Bool)
+(assert (forall ((x Int)) (! (=> (pow2 x) (>= x 1)) :pattern ((pow2 x)))))
+(assert (forall ((x Int)) (! (=> (and (pow2 x) (<= x 4611686018427387903)) (pow2 (* 2 x))) :pattern ((pow2 x)))))
+(assert (pow2 1))
+(assert (forall ((n Int) (m Int)) (! (=> (and (pow2 (+ m 1)) (<= 0 n) (<= n m)) (= (band64 n m) n)) :pattern ((band64 n m)))))
+(assert (forall ((n Int) (m Int)) (! (=> (and (pow2 (+ m 1)) (= n (+ m 1))) (= (band64 n m) 0)) :pattern ((band64 n m)))))
+(assert (forall ((n Int) (m Int)) (! (=> (and (pow2 (+ m 1)) (<= 0 n)) (and (<= 0 (band64 n m)) (<= (band64 n m) m))) :pattern ((band64 n m)))))
+(assert (forall ((n Int)) (! (=> (>= n 1) (= (= (band64 n (- n 1)) 0) (pow2 n))) :pattern ((band64 n (- n 1))))))
+`},
 }
 
 // finishQuery resolves the %%DECLS%% placeholder against the query body.
